@@ -101,6 +101,19 @@ func genC09(t *rapid.T) Case {
 		at := rapid.IntRange(0, len(ops)).Draw(t, "gcAt")
 		ops = append(ops[:at:at], append(sc, ops[at:]...)...)
 	}
+	// a commit that was overtaken by somebody else's write to the same key, watched by a ReadUncommitted
+	// reader across a collector run (the overtaken version is garbage: removing it must not change the answer)
+	for n := rapid.IntRange(0, 2).Draw(t, "overtaken"); n > 0; n-- {
+		sc := GenOvertakenCommit(t)
+		if rapid.Bool().Draw(t, "ruBefore") {
+			sc = append([]Op{{K: "begin", Lvl: 0}}, sc...)
+		} else {
+			sc = append(sc, Op{K: "begin", Lvl: 0})
+		}
+		sc = append(sc, Op{K: "gc"})
+		at := rapid.IntRange(0, len(ops)).Draw(t, "otAt")
+		ops = append(ops[:at:at], append(sc, ops[at:]...)...)
+	}
 	if dense { // the collector after every step (and before the first)
 		c.Ops = append(c.Ops, Op{K: "gc"})
 		for _, op := range ops {
